@@ -13,6 +13,7 @@ import ArchSim.Model.Toy
 import ArchSim.Model.Fmt
 import ArchSim.Model.ToyAsm
 import ArchSim.Model.Asm
+import ArchSim.Model.Sim
 
 namespace Driver
 open ArchSim
@@ -196,24 +197,13 @@ def freshSt (ms : Rv.MemSys) (ic : Option Rv.ICache) : Rv.St :=
   { regs := fun _ => 0, pc := 0, mem := ms, imem := { prog := [], cache := ic }, output := "",
     exitCode := none, cycles := 0, instrs := 0, branches := 0, procs := 0, stalls := 0, flushes := 0 }
 
-/-- `RiscvSimulation.step()`: nothing happens when done; returns the fault if the step raised. -/
+def simFaultStr (f : Int × Option Rv.Instr × Rv.Fault) : String :=
+  s!"F {f.1} {optStr instrStr f.2.1} {faultStr f.2.2}"
+
+/-- `RiscvSimulation.step()` through `Model.Sim`. -/
 def simStep (five : Bool) (p : Pipe.PSt) : Pipe.PSt × Option String :=
-  if five then
-    if Pipe.isDone p then (p, none)
-    else
-      let o := Pipe.step p
-      match o.fault with
-      | none => (o.p, none)
-      | some f => (o.p, some s!"F {f.addr} {instrStr f.instr} {faultStr f.fault}")
-  else
-    if Rv.singleDone p.st then (p, none)
-    else
-      let o := Rv.singleStep p.st
-      match o.fault with
-      | none => ({ p with st := o.st }, none)
-      | some (a, f) =>
-        let ir := optStr instrStr (p.st.imem.instrAt a)
-        ({ p with st := o.st }, some s!"F {a} {ir} {faultStr f}")
+  let r := Sim.step { five := five, p := p }
+  (r.sim.p, r.fault.map simFaultStr)
 
 def simDone (five : Bool) (p : Pipe.PSt) : Bool := if five then Pipe.isDone p else Rv.singleDone p.st
 
@@ -452,6 +442,13 @@ def process (st : State) (line : String) : State × String :=
   | ["toy.asm", h] =>
     match unhex h with
     | some text => let (t, out) := ToyAsm.loadProgram st.toy text; ({ st with toy := t }, out)
+    | none => (st, "bad-op")
+  -- inspection functions are `State → View` in the model: no-ops on the state
+  | ["sim.insp", _] => (st, "ok")
+  | ["toy.insp", _] => (st, "ok")
+  | ["rv.repr", tok] =>
+    match parseInstr tok with
+    | some i => (st, hex i.repr)
     | none => (st, "bad-op")
   /- formatter -/
   | ["fmt", x, n] =>
